@@ -148,6 +148,14 @@ func (fr *frame) instr(b *ssa.BasicBlock, ins ssa.Instruction, st *state) bool {
 			g.safety(fr, st, "index", fr.srcAnchor(x.Pos(), isIndex, "string-index"), x.Pos(), "(and (<= 0 "+i.S+") (< "+i.S+" (strlen "+v.S+")))")
 			fr.env[x] = &Term{S: "(strat " + v.S + " " + i.S + ")", T: x.Type()}
 			g.assert("(and (<= 0 (strat " + v.S + " " + i.S + ")) (<= (strat " + v.S + " " + i.S + ") 255))")
+		} else if at, ok := x.X.Type().Underlying().(*types.Array); ok && g.U.sortOf(x.X.Type()) != "" {
+			if _, isConst := x.Index.(*ssa.Const); !isConst {
+				g.safety(fr, st, "index", fr.srcAnchor(x.Pos(), isIndex, "array-index"), x.Pos(), fmt.Sprintf("(and (<= 0 %s) (< %s %d))", i.S, i.S, at.Len()))
+			}
+			n := g.fresh(fr.name(x), g.leafSort(at.Elem()))
+			g.assert("(= " + n + " (select " + v.S + " " + i.S + "))")
+			g.assumeType(at.Elem(), n, st, false)
+			fr.env[x] = &Term{S: n, T: x.Type()}
 		} else {
 			g.rejectf("Index on %s", x.X.Type())
 			fr.env[x] = &Term{S: "0", T: x.Type()}
@@ -161,6 +169,9 @@ func (fr *frame) instr(b *ssa.BasicBlock, ins ssa.Instruction, st *state) bool {
 			g.safety(fr, st, "nil-deref", fr.srcAnchor(x.Pos(), nil, "store"), x.Pos(), "(not (= "+p.S+" 0))")
 		}
 		l := g.locOfPointer(p)
+		if inv := fr.fieldInv(l, v.S); inv != "" {
+			g.addObl(fr, st, "fieldinv", l.base+":"+fr.srcAnchor(x.Pos(), nil, "store"), "data-structure invariant of "+l.base+" holds for the stored value", x.Pos(), inv)
+		}
 		g.store(st, l, v)
 		if v.Clo != nil && l.local && len(l.idx) == 0 {
 			if a, ok := x.Addr.(*ssa.Alloc); ok {
@@ -375,6 +386,9 @@ func (fr *frame) unop(x *ssa.UnOp, st *state) {
 			n := g.fresh(fr.name(x), g.U.sortOf(r.T))
 			g.assert("(= " + n + " " + r.S + ")")
 			g.assumeType(r.T, n, st, false)
+			if inv := fr.fieldInv(l, n); inv != "" {
+				g.assert("(=> " + st.cur + " " + inv + ")")
+			}
 			fr.env[x] = &Term{S: n, T: x.Type(), Clo: r.Clo}
 		} else {
 			fr.env[x] = r
@@ -906,4 +920,23 @@ func (fr *frame) send(x *ssa.Send, st *state) {
 	g.assert("(= " + c1 + " (store " + chans + " " + cnt + " " + ch.S + "))")
 	v1 := g.newVersion(st, "sent.val_"+sanitizeSym(vs))
 	g.assert("(= " + v1 + " (store " + vals + " " + cnt + " " + v.S + "))")
+}
+
+// fieldInv instantiates the declared data-structure invariant of a struct field (if any) for value v.
+func (fr *frame) fieldInv(l *Loc, v string) string {
+	g := fr.g
+	if !strings.HasPrefix(l.base, "F_") {
+		return ""
+	}
+	sx, ok := g.Spec.FieldInvs[strings.TrimPrefix(l.base, "F_")]
+	if !ok {
+		return ""
+	}
+	sc := &specCtx{fr: fr, st: &state{cur: "true", heap: map[string]string{}}, old: fr.entryState(), names: map[string]*Term{"v": {S: v, T: l.typ}}, calleeView: true}
+	t := sc.tr(sx)
+	if sc.err != "" {
+		g.rejectf("fieldinv %s: %s", l.base, sc.err)
+		return ""
+	}
+	return t
 }
